@@ -87,6 +87,8 @@ func runC08(c *Ctx) {
 			c08Run(c, capSec)
 		}(capSec)
 	}
+	wg.Add(1)
+	go func() { defer wg.Done(); c08Redis(c) }()
 	wg.Wait()
 	c08StoreRace(c) // after the timed scenarios: it is CPU bound and would starve their clocks
 }
